@@ -13,7 +13,7 @@ From Coq Require Import List ZArith Bool.
 Import ListNotations.
 From V Require Import Valid.Hier Valid.Walk Valid.FlatRegion Model.Graph Model.Edits Model.Edits2 Model.Refine Model.CbPath
      Model.LoopEdit Model.Extract Model.CbHier Model.LoopHier Model.LoopHierApplic Model.Applic Model.Total2
-     Model.LoopHierRun Model.BeOnly Model.CbHierPath Model.UniHierPath Model.UniHierApplic.
+     Model.LoopHierRun Model.BeOnly Model.HierEquiv Model.CbHierPath Model.UniHierPath Model.UniHierApplic.
 Local Open Scope Z_scope.
 
 Record uniargs := mkUA { ua_H : name; ua_v : Z; ua_names_cb : list name; ua_g1 : egraph; ua_loop1 : list name;
@@ -41,10 +41,6 @@ Definition is_early (bbs exiting : list name) : option name :=
   | [bb], [xb] => if Z.eqb bb xb then Some bb else None
   | _, _ => None
   end.
-
-Definition xhier_eqb (h' ha : hier) : bool :=
-  Nat.eqb (length h') (length ha) &&
-  forallb (fun n => match find ha (n_name n) with Some m => xnode_eqb n m | None => false end) h'.
 
 (* every original block of h is an original block of h1 *)
 Definition orig_keptb (h h1 : hier) : bool :=
